@@ -163,7 +163,7 @@ func (e *Engine) strLitOf(v ssa.Value) (string, bool) {
 // The found result reports whether sep appears in s. If sep does not appear in s, cut returns s, "", false."
 func modelCut(f *Frame, st *State, cc *ssa.CallCommon, args []Val, rt types.Type, pos token.Pos) Val {
 	e := f.e
-	s, sep := args[0].S, args[1].S
+	s, sep := e.nameConst("cut.s", "Str", args[0].S), args[1].S
 	p := e.freshConst("cut.p", "Int")
 	found := e.freshConst("cut.found", "Bool")
 	match := func(q string) string {
@@ -201,7 +201,7 @@ func cutsetPred(e *Engine, cutset ssa.Value, b string) (string, bool) {
 // strings.TrimLeft(s, cutset): "returns a slice of the string s with all leading Unicode code points contained in cutset removed" (ASCII cutsets only).
 func modelTrimLeft(f *Frame, st *State, cc *ssa.CallCommon, args []Val, rt types.Type, pos token.Pos) Val {
 	e := f.e
-	s := args[0].S
+	s := e.nameConst("trim.s", "Str", args[0].S)
 	if _, ok := cutsetPred(e, cc.Args[1], "0"); !ok {
 		e.note("strings.TrimLeft with a non-literal or non-ASCII cutset: result havocked")
 		return e.havocVal(rt, "trim", st)
@@ -216,7 +216,7 @@ func modelTrimLeft(f *Frame, st *State, cc *ssa.CallCommon, args []Val, rt types
 
 func modelTrimRight(f *Frame, st *State, cc *ssa.CallCommon, args []Val, rt types.Type, pos token.Pos) Val {
 	e := f.e
-	s := args[0].S
+	s := e.nameConst("trim.s", "Str", args[0].S)
 	if _, ok := cutsetPred(e, cc.Args[1], "0"); !ok {
 		e.note("strings.TrimRight with a non-literal or non-ASCII cutset: result havocked")
 		return e.havocVal(rt, "trim", st)
@@ -233,7 +233,7 @@ func modelTrimRight(f *Frame, st *State, cc *ssa.CallCommon, args []Val, rt type
 // removed bytes are >= 0x80 (possible Unicode space) or ASCII space. (weak model: ASCII part exact)
 func modelTrimSpace(f *Frame, st *State, cc *ssa.CallCommon, args []Val, rt types.Type, pos token.Pos) Val {
 	e := f.e
-	s := args[0].S
+	s := e.nameConst("trim.s", "Str", args[0].S)
 	a := e.freshConst("ts.a", "Int")
 	b := e.freshConst("ts.b", "Int")
 	sp := func(x string) string {
@@ -308,7 +308,7 @@ func modelTrimPrefix(f *Frame, st *State, cc *ssa.CallCommon, args []Val, rt typ
 // strings.IndexByte: "returns the index of the first instance of c in s, or -1 if c is not present in s."
 func modelIndexByte(f *Frame, st *State, cc *ssa.CallCommon, args []Val, rt types.Type, pos token.Pos) Val {
 	e := f.e
-	s, c := args[0].S, args[1].S
+	s, c := e.nameConst("ib.s", "Str", args[0].S), args[1].S
 	p := e.freshConst("idx", "Int")
 	e.assume("true", fmt.Sprintf("(and (<= (- 1) %s) (< %s (slen %s)) (=> (>= %s 0) (= (sbyte %s %s) %s)) (forall ((q Int)) (! (=> (and (<= 0 q) (< q (ite (>= %s 0) %s (slen %s)))) (not (= (sbyte %s q) %s))) :pattern ((sbyte %s q)))))",
 		p, p, s, p, s, p, c, p, p, s, s, c, s))
